@@ -93,3 +93,14 @@ prop("C18", modules=["config"],
      design_ref="DESIGN.md section 6, C18",
      trusted=["pathlib operations are uninterpreted functions of the path strings", "YAML/JSON/Jinja loaders produce the dict they describe (not examined)"],
      assumptions=["configuration values have the documented types (path strings, non-negative number for memory_cache_mb)"])
+
+MFN = "memento:MementoFunction."
+prop("C13", modules=["version"],
+     split={MFN + "__init__": 14},
+     functions=[MFN + "__init__", MFN + "_update_dependencies", MFN + "_update_fn_reference", MFN + "version", MFN + "fn_reference", MFN + "hash_rules", MFN + "increment_global_fn_generation",
+                "code_hash:UndefinedSymbolHashRule.did_change", "code_hash:MementoFunctionHashRule.did_change", "code_hash:GlobalVariableHashRule.did_change",
+                "code_hash:NonMementoFunctionHashRule.did_change"],
+     design_ref="DESIGN.md section 6, C13",
+     trusted=["coherence lemma over the per-call contracts under environment assumption E (DESIGN section 6, C13): every in-process event that changes the from-scratch version is a registration or makes a collected rule report change",
+              "_recompute_version returns the from-scratch version (assumed contract)"],
+     assumptions=["within one call the answers of rule.did_change() and the from-scratch version do not change"])
